@@ -155,6 +155,8 @@ def inputs_from_model(m, entry_env, c, maxlen=40):
             out[a] = {'list': [val(i) for i in x.items]}
         elif isinstance(x, core.SObject):
             for k, v in x.attrs.items():
+                if isinstance(v, core.SList):
+                    continue
                 if isinstance(v, core.STuple) and all(z3.is_expr(i) for i in v.items):
                     out['%s.%s' % (a, k)] = {'list': [val(i) for i in v.items]}
                 elif z3.is_expr(v):
